@@ -21,6 +21,7 @@ func ruleC02(prog *Program, rep *Report) {
 	ruleSurrogates(prog, rep)
 	ruleBigLimitAgree(prog, rep)
 	ruleFillOnce(prog, rep)
+	ruleInfSign(prog, rep, 1, "gen", "oj", "sen") // a literal beyond the float64 range is kept as text whatever its sign
 	ruleBufView(prog, rep, 20, "oj", "gen", "sen")
 	ruleBufAlias(prog, rep, append(append([]feSpec{}, jsonFrontEnds...), senFrontEnds...)...)            // a string that is a view of the read buffer changes when the next chunk is read
 	ruleArmTwinsAll(prog, rep, false)                                                                    // counters and cursors the exploration keeps abstract
